@@ -553,37 +553,38 @@ def generate(ctx):
     # (0) Python's own semantics: the specification side
     for n in range(0, 5):
         for s in _all_slices(n):
-            if thorough or rng.random() < 0.25:
+            if thorough or rng.random() < 0.12:
                 yield "pyslice", {"n": n, "s": s, "a": rng.randint(-9, 9)}
     yield "pyslice", {"n": 3, "s": [None, None, 0]}
     yield "norm", {"n": 3, "s": [1, None, 0]}
     # (1) normalize_slice: exhaustive for n <= 6 (cheap)
     for n in range(0, 7):
         for s in _all_slices(n):
-            if thorough or n <= 2 or rng.random() < 0.2:
+            if thorough or rng.random() < 0.1:
                 yield "norm", {"n": n, "s": s}
     # (2) _slice_1d / new_blockdim: every chunking of n <= 6; all slices in thorough, a sample in quick
-    p_quick = {0: 1.0, 1: 1.0, 2: 0.4, 3: 0.15, 4: 0.05, 5: 0.02, 6: 0.008}
+    p_quick = {0: 1.0, 1: 0.5, 2: 0.2, 3: 0.08, 4: 0.025, 5: 0.01, 6: 0.004}
     for n in range(0, 7):
         for lengths in compositions(n):
             for s in _all_slices(n):
                 if thorough or rng.random() < p_quick[n]:
                     yield "slice1d", {"lengths": list(lengths), "s": s}
             for i in range(-n - 1, n + 1):
-                yield "slice1dint", {"lengths": list(lengths), "i": i}
+                if thorough or rng.random() < 0.4:
+                    yield "slice1dint", {"lengths": list(lengths), "i": i}
     # zero-length chunks (empty blocks inside the axis)
     for n in range(0, 4 if not thorough else 5):
         for lengths in compositions(n, zeros=True, maxparts=4):
             if 0 not in lengths or len(lengths) == 1:
                 continue
             for s in _all_slices(n):
-                if rng.random() < (0.05 if not thorough else 0.6):
+                if rng.random() < (0.025 if not thorough else 0.6):
                     yield "slice1d", {"lengths": list(lengths), "s": s}
             for i in range(-n, n):
                 if rng.random() < 0.3:
                     yield "slice1dint", {"lengths": list(lengths), "i": i}
     # larger axes, random
-    for _ in range(ctx.n(1000, 30000)):
+    for _ in range(ctx.n(700, 30000)):
         n = rng.randint(5, 40)
         lengths = random_chunks(rng, n, zeros=0.2)
         v = [None] + list(range(-n - 2, n + 3))
